@@ -5,7 +5,9 @@ _wait_for_available_connection, _release_waiter, _release_acquired, _release, _c
 driven label by label on a hand-stepped virtual loop (harness/common/c07_pool.py).
 Model: lean/AioModel/C07.lean; theorems: lean/AioProps/C07.lean.
 """
+import contextlib
 import itertools
+import signal
 
 from .common import c07_session
 
@@ -143,12 +145,17 @@ class Judge:
                 left = []
                 if c._acquired:
                     left.append("acquired")
+                real_left = [x for x in c._acquired if not isinstance(x, p.mod._TransportPlaceholder)]
                 if any(len(v) for v in c._acquired_per_host.values()):
                     left.append("acquired-per-host")
                 if any(len(v) for v in c._waiters.values()):
                     left.append("waiters")
                 if left:
-                    self.found.setdefault("leak", (idx, ("on-closed-connector" if closed else "+".join(left)),
+                    # known F22b = what close() forgets: per-host entries, and the placeholder of a connect() made after
+                    # close; real connections or waiters left on a closed connector are something else
+                    closed_how = ("on-closed-connector" if not real_left and "waiters" not in left
+                                  else "on-closed-connector/" + ("connections" if real_left else "waiters"))
+                    self.found.setdefault("leak", (idx, (closed_how if closed else "+".join(left)),
                                                    f"all requests over, still counted: {left}"))
         # (5) conservation: every open connection the connector created is exactly one of
         #     {counted in _acquired, idle in the pool, still in connect()'s hands inside on_connection_create_end}
@@ -184,7 +191,26 @@ class Judge:
 
 SIG = {"limit": "C07/limit-exceeded/", "stuck": "C07/lost-wakeup/", "parked-closed": "C07/close/",
        "leak": "C07/leak/", "close-open": "C07/close/", "close-waiter": "C07/close/", "raised": "C07/connect-raised/",
-       "conserve": "C07/conservation/", "conserve2": "C07/conservation/"}
+       "conserve": "C07/conservation/", "conserve2": "C07/conservation/", "hang": "C07/liveness/", "api": "C07/api-call-raised/"}
+
+
+class Hang(Exception):
+    """one synchronous step of the real code did not return within the budget (e.g. a loop in _release_waiter)"""
+
+
+@contextlib.contextmanager
+def watchdog(seconds=20.0):
+    """liveness guard: a scenario is a few hundred synchronous steps of a millisecond; if one does not come back
+    the check must end with a replay instead of hanging"""
+    def on_alarm(signum, frame):
+        raise Hang()
+    old = signal.signal(signal.SIGALRM, on_alarm)
+    signal.setitimer(signal.ITIMER_REAL, seconds)
+    try:
+        yield
+    finally:
+        signal.setitimer(signal.ITIMER_REAL, 0)
+        signal.signal(signal.SIGALRM, old)
 
 
 def signature(clause, how):
@@ -202,11 +228,23 @@ def run_case(case, want_proj=True, observe=None):
     j = Judge(limit, lph)
     out = []
     try:
-        for i, lab in enumerate(labels):
-            p.do(lab)
-            if want_proj:
-                out.append(p.project())
-            j(p, lab, i)
+        with watchdog():
+            for i, lab in enumerate(labels):
+                j.at = i
+                try:
+                    p.do(lab)
+                except Hang:
+                    raise
+                except Exception as e:      # release()/close()/_cleanup()/Task.cancel() are the application's calls: must not raise
+                    j.found["api"] = (i, f"{lab[0]}-raised-{type(e).__name__}", f"label {lab} raised {e!r}")
+                    break
+                if want_proj:
+                    out.append(p.project())
+                j(p, lab, i)
+        return out, j
+    except Hang:
+        j.found["hang"] = (getattr(j, "at", 0), "step-did-not-terminate",
+                           f"label #{getattr(j, 'at', 0)} ({labels[getattr(j, 'at', 0)]}) did not return within 20 s")
         return out, j
     finally:
         p.dispose()
@@ -234,6 +272,10 @@ def shrink(case, clause):
 
 def report(ctx, case, j, budget):
     """turn the judge's raw findings into signatures (after minimisation)"""
+    if "hang" in j.found:
+        idx, how, detail = j.found["hang"]
+        ctx.violation(signature("hang", how), {**case, "labels": case["labels"][:idx + 1]}, detail)
+        return
     for clause in list(j.found):
         ctx.hit("oracle-raw:" + clause)
         # the minimisation budget is per (clause, preliminary classification), so that the many instances of a known
@@ -309,7 +351,9 @@ def walk(rng, profile, judge_cb=None, hook=None):
     if hook is not None:
         mask = (1 << HOOK_BITS[hook]) | (rng.randrange(32) if rng.random() < 0.4 else 0)
     phase = 0
-    ka = rng.choice([10, 15, 3]) if profile == "keepalive" else 15
+    ka = rng.choice([10, 15, 3, 0]) if profile == "keepalive" else 15
+    if profile in ("reuse", "guided", "close") and rng.random() < 0.12:
+        mask |= 32        # force_close connector
     p_adv = 0.22 if profile == "keepalive" else 0.02
     nk = max(keys) + 1
     w = dict(WEIGHTS); w.update(PROFILES[profile])
@@ -340,16 +384,30 @@ def walk(rng, profile, judge_cb=None, hook=None):
                         if not forced:
                             phase = 2
                             w = dict(w); w.update({"t": 6.0, "k": 6.0, "s": 1.0, "c": 0.4})
-                        p.do(lab); labels.append(lab); out.append(p.project()); j(p, lab, i)
+                        labels.append(lab)
+                        with watchdog():
+                            p.do(lab)
+                        out.append(p.project()); j(p, lab, i)
                         continue
                 if rng.random() < 0.04:   # a label that is (probably) disabled: must be a no-op
                     lab = rng.choice("socmrxlt") + str(rng.randrange(len(keys)))
                 else:
                     lab = rng.choices(en, weights=[w[e[0]] for e in en])[0]
-            p.do(lab)
             labels.append(lab)
+            try:
+                with watchdog():
+                    p.do(lab)
+            except Hang:
+                raise
+            except Exception as e:
+                j.found["api"] = (i, f"{lab[0]}-raised-{type(e).__name__}", f"label {lab} raised {e!r}")
+                out.append("api-call-raised")
+                break
             out.append(p.project())
             j(p, lab, i)
+        return {"limit": limit, "lph": lph, "mask": mask, "ka": ka, "keys": keys, "labels": labels}, out, j
+    except Hang:
+        j.found["hang"] = (len(labels) - 1, "step-did-not-terminate", f"label {labels[-1]} did not return within 20 s")
         return {"limit": limit, "lph": lph, "mask": mask, "ka": ka, "keys": keys, "labels": labels}, out, j
     finally:
         p.dispose()
@@ -399,6 +457,16 @@ SCRIPTED = [
     # _get meets an expired and a lost connection before a fresh one
     {"limit": 3, "lph": 0, "ka": 10, "keys": [0, 0, 0, 0], "labels":
      L("p0 s0 s1 s2 k k k o0 o1 o2 k k k r0 a6 r1 l1 a6 r2 s3 k C")},
+    # a connection lost while in use is released: not pooled, slot returned, the waiter gets it (Connection.release path)
+    {"limit": 1, "lph": 1, "keys": [0, 0], "labels": L("p0 s0 k o0 k s1 k l0 r0 k o1 k x1")},
+    # roll-back of a failed on_connection_reuseconn: slot and per-host entry returned, waiter woken
+    {"limit": 0, "lph": 1, "mask": 1, "keys": [0, 0, 0], "labels": L("p0 s0 k o0 k r0 s1 k s2 k c1 k k o2 k x2")},
+    # force_close connector (bit 5): nothing is ever pooled
+    {"limit": 2, "lph": 0, "mask": 32, "keys": [0, 0, 0], "labels": L("p0 s0 k o0 k r0 s1 k o1 k r1 s2 k C")},
+    # keepalive_timeout = 0: a connection is reusable only in the instant it was released
+    {"limit": 2, "lph": 0, "ka": 0, "keys": [0, 0, 0], "labels": L("p0 s0 k o0 k r0 s1 k r1 a1 s2 k S C")},
+    # both limits bind, two hosts, connect timeout on a waiter, close twice
+    {"limit": 2, "lph": 1, "keys": [0, 0, 1, 1], "labels": L("p1.0 s0 s1 s2 s3 k k k k m1 k o0 o2 k k x0 k o3 k C C")},
     # close() while a task is suspended in each trace hook; the callback then returns and connect() finishes
     {"limit": 1, "lph": 0, "mask": 16, "keys": [0, 0], "labels": L("p0 s0 k o0 k C t0 k")},          # create_end
     {"limit": 1, "lph": 1, "mask": 16, "keys": [0, 0], "labels": L("p0 s0 k o0 k t0 C k s1 k")},     # create_end, returned first
@@ -518,6 +586,8 @@ def check(ctx):
     outs = ctx.model([model_line(fx, c) for c, _, _, _ in cases])
     for i, (c, out, j, prof) in enumerate(cases):
         last = out[-1] if out else ""
+        if "tasks=" not in last:
+            last = next((o for o in reversed(out) if "tasks=" in o), "")
         nontriv = "tasks=" in last and any(ch in last.split("tasks=")[1] for ch in "wWVchdXTEQ")
         ctx.case((c["limit"], c["lph"], c.get("mask", 0), tuple(c["keys"]), tuple(c["labels"])), nontrivial=nontriv,
                  sample={"case": model_line(fx, c)[:160], "last": last} if i % 499 == 0 else None)
@@ -525,6 +595,8 @@ def check(ctx):
         for lab in c["labels"]:
             ctx.hit("label:" + lab[0])
         for o in out:
+            if "tasks=" not in o:
+                continue
             for tok in o.split("tasks=")[1].split(" ")[0].split(","):
                 if "~" in tok:
                     ctx.hit("trace-hook-suspended:" + tok.split("~")[1][0])
@@ -598,6 +670,14 @@ def check_sessions(ctx):
         ctx.hit("spelling:pairs" if len(sc["names"]) <= 4 else "spelling:all")
         for sig, detail in c07_session.judge_spelling(sc, obs):
             ctx.violation("C07/" + sig, {"kind": "session", **sc}, detail)
+    # family 4: redirects, errors, timeouts, raise_for_status, several exchanges on one session
+    for sc in c07_session.hop_scenarios():
+        obs = c07_session.run_hops(sc)
+        n += 1
+        ctx.case(("session", sc["limit"], sc["lph"], sc["mode"], tuple(sc["hops"])), nontrivial=True)
+        ctx.hit("hops:mode=" + sc["mode"], *["hops:" + h for h in sc["hops"]], *["hops:result=" + r for r in obs.get("results", [])])
+        for sig, detail in c07_session.judge_hops(sc, obs):
+            ctx.violation("C07/" + sig, {"kind": "session", **sc}, detail)
     ctx.extra["session_scenarios"] = n
     check_keys(ctx)
 
@@ -645,6 +725,8 @@ def replay(ctx, case):
             res = c07_session.judge_consume(sc, c07_session.run_consume(sc))
         elif fam == "spelling":
             res = c07_session.judge_spelling(sc, c07_session.run_spelling(sc))
+        elif fam == "hops":
+            res = c07_session.judge_hops(sc, c07_session.run_hops(sc))
         else:
             res = c07_session.judge(sc, c07_session.run_scenario(sc))
         for sig, detail in res:
